@@ -782,6 +782,9 @@ def spacing_selection(S):
 
 
 def build(S):
+    from . import optdefaults
+
+    optdefaults.check(S, "hypnotoad.core.equilibrium:EquilibriumRegion.getSpacings", which=("eq", "nonorth"))
     spacing_selection(S)
     S.under_contract(E_ + "getSpacings", E_ + "getTargetParameter")
     S.under_contract(FN_MONO, FN_SQRT, FN_LIN, FN_CHK, E_ + "combineSfuncs", E_ + "getSfuncFixedSpacing", E_ + "getSfuncFixedPerpSpacing")
